@@ -15,6 +15,44 @@ import (
 
 type libModel func(fc *FnCtx, s *CallSite) bool
 
+// libWriteSets: library calls whose effects depend on their arguments.
+var libWriteSets = map[string]func(fc *FnCtx, c ssa.CallInstruction) *WriteSet{}
+
+// sortInterfaceMethods finds the Less/Swap/Len methods of the concrete value
+// passed to sort.Sort.
+func (fc *FnCtx) sortInterfaceMethods(v ssa.Value) (less, swap, ln *ssa.Function, concrete ssa.Value) {
+	mi, ok := v.(*ssa.MakeInterface)
+	if !ok {
+		return
+	}
+	concrete = mi.X
+	ms := fc.eng.Prog.MethodSets.MethodSet(mi.X.Type())
+	for i := 0; i < ms.Len(); i++ {
+		sel := ms.At(i)
+		f := fc.eng.Prog.MethodValue(sel)
+		switch sel.Obj().Name() {
+		case "Less":
+			less = f
+		case "Swap":
+			swap = f
+		case "Len":
+			ln = f
+		}
+	}
+	return
+}
+
+func sortWrites(fc *FnCtx, c ssa.CallInstruction) *WriteSet {
+	_, swap, _, _ := fc.sortInterfaceMethods(c.Common().Args[0])
+	if swap == nil {
+		return nil
+	}
+	// wrappers generated for value receivers have a body that calls the real method
+	ws := newWS()
+	ws.union(fc.funcWrites(swap, 0))
+	return ws
+}
+
 var libModels = map[string]libModel{}
 
 // pureLib: side-effect free library calls.  Value true = deterministic
@@ -29,6 +67,7 @@ var pureLib = map[string]bool{
 	"path/filepath.Base": true, "path/filepath.Dir": true, "path/filepath.Join": false, "path/filepath.Clean": true,
 	"fmt.Sprint": false, "fmt.Sprintln": false, "fmt.Sprintf": false,
 	"errors.New": false, "fmt.Errorf": false,
+	"sha1.Sum": true, "sha256.Sum256": true,
 	"time.Now": false, "time.Since": false, "time.Duration.Seconds": true, "time.Duration.String": true, "time.Time.Unix": true, "time.Time.UnixNano": true,
 	"time.Time.Add": true, "time.Time.Sub": true, "time.Time.Before": true, "time.Time.After": true, "time.Time.Equal": true, "time.Time.IsZero": true,
 	"time.Time.Format": true, "time.Unix": true, "time.Time.UTC": true, "time.Duration.Nanoseconds": true, "time.NewTimer": false, "time.After": false, "time.NewTicker": false,
@@ -98,6 +137,37 @@ var libStateSorts = map[string]Sort{
 }
 
 func init() {
+	libWriteSets["sort.IntSlice.Swap"] = func(fc *FnCtx, c ssa.CallInstruction) *WriteSet {
+		ws := newWS()
+		ws.add(fc.memVar(types.Typ[types.Int]))
+		return ws
+	}
+	libModels["sort.IntSlice.Swap"] = func(fc *FnCtx, s *CallSite) bool {
+		sl := *s.recv
+		i, j := s.args[0], s.args[1]
+		mem := fc.memVar(types.Typ[types.Int])
+		m0 := fc.lookup(mem)
+		arr := T(SInt, "(s_arr %s)", sl.S)
+		row := Select(m0, arr)
+		off := T(SInt, "(s_off %s)", sl.S)
+		pi, pj := fc.ix(off, i), fc.ix(off, j)
+		fc.boundsCheck(i, T(SInt, "(s_len %s)", sl.S), s.pos)
+		fc.boundsCheck(j, T(SInt, "(s_len %s)", sl.S), s.pos)
+		nr := Store(Store(row, pi, Select(row, pj)), pj, Select(row, pi))
+		fc.assign(mem, Store(m0, arr, nr))
+		s.results = nil
+		return true
+	}
+	libWriteSets["sort.Sort"] = sortWrites
+	libWriteSets["sort.Stable"] = sortWrites
+	libModels["sort.Sort"] = modelSortSort
+	libModels["sort.Stable"] = modelSortSort
+	libModels["md5.Sum"] = func(fc *FnCtx, s *CallSite) bool {
+		e := fc.eng
+		e.hashDecls()
+		s.results = []Term{T(ArraySort(SInt, SInt), "(md5sum %s)", fc.bstr(s.args[0]).S)}
+		return true
+	}
 	libModels["errors.New"] = freshError
 	libModels["fmt.Errorf"] = freshError
 	libModels["strings.HasPrefix"] = func(fc *FnCtx, s *CallSite) bool {
@@ -597,4 +667,30 @@ func modelSortStrings(fc *FnCtx, s *CallSite) bool {
 	fc.assign(mem, Store(m0, T(SInt, "(s_arr %s)", sl.S), row))
 	s.results = nil
 	return true
+}
+
+// sort.Sort(x): effects are those of x.Swap; the ordering facts are added by
+// the contract of the caller (see "calls sort.Sort#k: ensures") or by the
+// RootSorter-specific model in C12.
+func modelSortSort(fc *FnCtx, s *CallSite) bool {
+	ws := sortWrites(fc, s.instr)
+	if ws == nil {
+		return false
+	}
+	fc.applyWriteSet(ws)
+	s.results = nil
+	return true
+}
+
+// hashDecls: MD5 and HMAC-SHA1 are uninterpreted; only the relation between
+// the raw digest and its lowercase hex rendering is axiomatised.
+func (e *Engine) hashDecls() {
+	e.declBuiltin("md5hex")
+	e.declBuiltin("hexlower")
+	e.GDecl("md5sum", "(declare-fun md5sum (String) (Array Int Int))")
+	e.GDecl("md5raw", "(declare-fun md5raw (String) String)")
+	e.GDecl("hexarr", "(declare-fun hexarr ((Array Int Int)) String)")
+	e.GAxiom("hexarr_md5sum", "(assert (forall ((s String)) (! (= (hexarr (md5sum s)) (md5hex s)) :pattern ((md5sum s)))))", "md5sum")
+	e.GAxiom("hexlower_md5raw", "(assert (forall ((s String)) (! (= (hexlower (md5raw s)) (md5hex s)) :pattern ((md5raw s)))))", "md5raw")
+	e.GAxiom("md5hex_shape", "(assert (forall ((s String)) (! (str.in_re (md5hex s) ((_ re.loop 32 32) (re.union (re.range \"0\" \"9\") (re.range \"a\" \"f\")))) :pattern ((md5hex s)))))", "md5hex")
 }
